@@ -8,12 +8,17 @@
    The second half is proved without side condition (C12_outputs_cover_modified); the first half is
    proved under the static condition [safe] (C12_replay_sound_partial) and, for any single run, under
    the run-time condition "no upward-exposed read outside the inputs" (C12_replay_sound_dyn).
+   Array extents: the theorems C12_replay_sound_dyn / _partial ask the two stores to have the same bounds for
+   every array; the _ext versions weaken this to the bounds of the RECORDED variables (reported inputs and
+   outputs) and therefore need [inq_ok]: every array whose LBOUND/UBOUND/SIZE the region can read is
+   recorded (true under ExtractTrans' option COLLECT-ARRAY-SHAPE-READS; false by design for an array that
+   is only inquired when the option is off).
    What is missing for the full statement: regions outside [safe] — arrays whose first access is a
    write (sound only if the run overwrites every element), scalars first written under a condition,
    DO variables read by their own bounds. *)
 From Coq Require Import List ZArith Bool.
 Import ListNotations.
-From PV Require Import Fort.Syntax Fort.Sem C11.Access C12.InOut C12.Proofs C12.LinkC11.
+From PV Require Import Fort.Syntax Fort.Sem C11.Access C12.InOut C12.Proofs C12.LinkC11 C12.Bounds.
 
 Theorem C12_outputs_cover_modified : forall sh f r s s' tr c,
   exec f r s = Ok s' tr c ->
@@ -94,3 +99,40 @@ Print Assumptions C12_outputs_refuted_partial_write.
 Theorem C12_accs_is_C11_projection : forall r, accs false r = map sk (accesses r).
 Proof. exact accs_is_C11_projection. Qed.
 Print Assumptions C12_accs_is_C11_projection.
+
+(* the bounds of arrays the region never inquires are irrelevant to its execution *)
+Theorem C12_exec_bounds_irrelevant : forall b f ss s,
+  (forall a, In a (inq_of ss) -> b a = bnd s a) ->
+  exec f ss (setb s b) = omapb b (exec f ss s).
+Proof. exact exec_setb. Qed.
+Print Assumptions C12_exec_bounds_irrelevant.
+
+Theorem C12_replay_sound_dyn_ext : forall sh f r s1 s1' tr c s2,
+  exec f r s1 = Ok s1' tr c ->
+  (forall l, In l (exposed tr) -> In (fst l) (inputs sh r)) ->
+  inq_ok sh r = true ->
+  bnd_agree_on (recorded sh r) s1 s2 -> agree_on (inputs sh r) s1 s2 ->
+  exists s2', exec f r s2 = Ok s2' tr c /\ bnd s2' = bnd s2 /\
+    (forall l, In (fst l) (inputs sh r) \/ In l (writes tr) -> val s2' l = val s1' l).
+Proof. exact replay_sound_dyn_ext. Qed.
+Print Assumptions C12_replay_sound_dyn_ext.
+
+Theorem C12_replay_sound_partial_ext : forall sh f r s1 s1' tr c s2,
+  safe_ext sh r = true ->
+  exec f r s1 = Ok s1' tr c ->
+  bnd_agree_on (recorded sh r) s1 s2 -> agree_on (inputs sh r) s1 s2 ->
+  exists s2', exec f r s2 = Ok s2' tr c /\ bnd s2' = bnd s2 /\
+    agree_on (inputs sh r) s1' s2' /\
+    (forall l, In l (writes tr) -> val s2' l = val s1' l) /\
+    (c = CNormal -> forall x, In x (outputs r) -> var_agree r x s1' s2').
+Proof. exact replay_sound_partial_ext. Qed.
+Print Assumptions C12_replay_sound_partial_ext.
+
+(* hist(size(active,1)) = hist(1) + 1 *)
+Example C12_ext_nonvacuous :
+  safe_ext true r_hist = true /\ inputs true r_hist = [0%nat; 1%nat] /\
+  inq_of r_hist = [1%nat] /\ inq_ok false r_hist = false /\ inputs false r_hist = [0%nat] /\
+  exists s' tr, exec 5 r_hist (store_of [((0%nat, [1%Z]), 4%Z)] [(0%nat, [(1%Z, 6%Z)]); (1%nat, [(1%Z, 3%Z)])]) = Ok s' tr CNormal /\
+                val s' (0%nat, [3%Z]) = 5%Z.
+Proof. exact ext_nonvacuous. Qed.
+Print Assumptions C12_ext_nonvacuous.
